@@ -31,15 +31,44 @@ def phases(tier):
     n = 300 if tier == 'quick' else 2000
     sh = 2 if tier == 'quick' else 8
     return _e3_phases(tier) + [Search('scheduler-records', lambda: c18.cases(6, [5, 12, 30]), n, shards=sh, tag='sched'),
-                               Search('maintainer-records', lambda: c12.cases(12), n, shards=sh, tag='maint')]
+                               Search('maintainer-records', lambda: c12.cases(12), n, shards=sh, tag='maint'),
+                               Search('trace-with-nested-runs', trace_cases, 2 * n, shards=sh, tag='trace')]
+
+
+def trace_cases():
+    """E1 histories (schedule / pause / cancel / run, runs also started from inside event actions) in which every run()
+    call carries its own trace flag."""
+    from hypothesis import strategies as st
+    from engines import e1gen
+
+    def build(case, flags):
+        case = dict(case)
+        case['trace'] = flags
+        return case
+    return st.builds(build, e1gen.cases(14, with_past=False), st.lists(st.booleans(), min_size=1, max_size=5).map(
+        lambda f: f if any(f) else [True] + f))
 
 
 def valid(case):
     from engines import e3gen
+    if 'ops' in case:
+        from engines import e1gen
+        return e1gen.valid_case(case) and bool(case.get('trace')) and all(isinstance(x, bool) for x in case['trace'])
     return e3gen.well_posed(case) if 'devs' in case else True
 
 
 def run_case(case, ctx):
+    if 'ops' in case:
+        from engines import tracehist
+        m = tracehist.run(case)
+        cl = ['trace-history']
+        if m.c['nested_in_traced']:
+            cl.append('run-nested-in-traced-run')
+        if m.c['untraced_after_traced']:
+            cl.append('untraced-run-after-traced-run')
+        return {'nontrivial': m.c['traced_top_runs'] >= 1 and m.c['trace_entries'] >= 3 and
+                (m.c['nested_in_traced'] > 0 or m.c['untraced_after_traced'] > 0), 'classes': cl,
+                'counters': {'trace_entries': m.c['trace_entries'], 'nested_in_traced': m.c['nested_in_traced']}}
     if 'timetable' in case:
         from engines import sched
         try:
